@@ -156,6 +156,10 @@ func writeCategoryNameFile(catName, dirName string) error {
 	if _, err = fp.WriteString(catName); err != nil {
 		return errors.New(io.GetCallerFileContext(0) + err.Error())
 	}
+	// the catalog cannot list the bucket after a restart without this file: make it durable now
+	if err = fp.Sync(); err != nil {
+		return errors.New(io.GetCallerFileContext(0) + err.Error())
+	}
 	return nil
 }
 
@@ -777,6 +781,10 @@ func newTimeBucketInfoFromTemplate(newTimeBucketInfo *io.TimeBucketInfo) (err er
 		int(newTimeBucketInfo.GetRecordLength()),
 	)
 	if err = fp.Truncate(fileSize); err != nil {
+		return UnableToCreateFile(err.Error())
+	}
+	// the header must be on disk before writes into the file are acknowledged (WAL replay relies on it)
+	if err = fp.Sync(); err != nil {
 		return UnableToCreateFile(err.Error())
 	}
 	if err = os.Rename(tmpPath, newTimeBucketInfo.Path); err != nil {
